@@ -15,6 +15,7 @@ proved statement is named `_partial` with the excluded inputs as a decidable hyp
     regex class `\w` and the identifier class differ: `nonword_name_counterexample`).
 -/
 import FaxVerif.C11.Proofs
+import FaxVerif.C11.AngleProofs
 import FaxVerif.Generated.C11Builtins
 namespace FaxVerif.C11
 
@@ -435,5 +436,91 @@ and there is one such handler per CMS back end. -/
 theorem nonnull_is_modelled :
     Gen.arityOnlyValues = [nonnullCodeValue, nonnullCodeValue] := by
   decide
+
+/-! ## Part E — what the supplied code of the built-in `DeltaR` means
+
+A call of a built-in "becomes the supplied code", and for a built-in that code belongs to the
+package: `DeltaR(eta1, phi1, eta2, phi2)` is the distance of two directions with the azimuth
+difference taken on the circle.  Angles are on a grid on which the half turn is `h` units, so the
+statements are exact; the harness compiles the code lines extracted from the source against a
+stand-in of `TVector2::Phi_mpi_pi` (the two loops of `Angle.phiMpiPi`) and the driver evaluates
+`Angle.DeltaRGridSpec` / `Angle.WrapGridSpec` on what the compiled code printed. -/
+
+open Angle in
+/-- `wrap h x` is THE representative of the angle `x` in `[-h, h)`: it is in that range, it
+differs from `x` by whole turns, and it is the only such number. -/
+theorem wrap_is_canonical (h : Nat) (hh : 0 < h) (x : Int) :
+    (-(h : Int) ≤ wrap h x ∧ wrap h x < h) ∧ (∃ k : Int, wrap h x = x + 2 * (h : Int) * k) ∧
+    (∀ r k : Int, -(h : Int) ≤ r → r < h → r = x + 2 * (h : Int) * k → r = wrap h x) :=
+  ⟨⟨wrap_lower h hh x, wrap_upper h hh x⟩, wrap_congr h x, fun r k h1 h2 hk => wrap_unique' h x r k h1 h2 hk⟩
+
+open Angle in
+/-- ROOT's `TVector2::Phi_mpi_pi` (`while (x >= π) x -= 2π; while (x < -π) x += 2π;`) — the
+function the built-in code calls and the harness's stand-in header implements — computes the
+canonical representative, for every angle, however many turns away. -/
+theorem root_phi_mpi_pi_is_wrap (h : Nat) (hh : 0 < h) (x : Int) : phiMpiPi h x = wrap h x :=
+  phiMpiPi_eq_wrap h hh x
+
+open Angle in
+/-- Hence the built-in code (`d_phi = Phi_mpi_pi(phi1-phi2)`, `d_eta*d_eta + d_phi*d_phi`) has
+the reference meaning at every point. -/
+theorem deltaR_builtin_meaning (h : Nat) (hh : 0 < h) (e1 p1 e2 p2 : Int) :
+    dr2With (phiMpiPi h) e1 p1 e2 p2 = dr2 h e1 p1 e2 p2 := by
+  unfold dr2With dr2
+  rw [phiMpiPi_eq_wrap h hh]
+
+open Angle in
+/-- **The argument order does not matter**: `DeltaR(a, b) = DeltaR(b, a)`, also across the
+seam `phi = ±π` (where the two wrapped differences are both the half turn, not opposite). -/
+theorem deltaR_order_irrelevant (h : Nat) (hh : 0 < h) (e1 p1 e2 p2 : Int) :
+    dr2 h e1 p1 e2 p2 = dr2 h e2 p2 e1 p1 := by
+  unfold dr2
+  have a : e2 - e1 = -(e1 - e2) := by omega
+  have b : p2 - p1 = -(p1 - p2) := by omega
+  rw [a, b, Int.neg_mul_neg, wrap_neg_sq h hh]
+
+open Angle in
+/-- Whole turns added to either azimuth do not change the result (both conventions,
+`[-π, π)` and `[0, 2π)`, denote the same directions). -/
+theorem deltaR_periodic (h : Nat) (e1 p1 e2 p2 k1 k2 : Int) :
+    dr2 h e1 (p1 + 2 * (h : Int) * k1) e2 (p2 + 2 * (h : Int) * k2) = dr2 h e1 p1 e2 p2 := by
+  unfold dr2
+  have : p1 + 2 * (h : Int) * k1 - (p2 + 2 * (h : Int) * k2) = (p1 - p2) + 2 * (h : Int) * (k1 - k2) := by
+    rw [Int.mul_sub]; omega
+  rw [this, wrap_add_turns]
+
+open Angle in
+/-- The azimuth part never exceeds the half turn. -/
+theorem deltaR_azimuth_bounded (h : Nat) (hh : 0 < h) (d : Int) :
+    wrap h d * wrap h d ≤ (h : Int) * h := by
+  have l := wrap_lower h hh d
+  have u := wrap_upper h hh d
+  by_cases s : 0 ≤ wrap h d
+  · exact Int.mul_le_mul (by omega) (by omega) s (by omega)
+  · have h1 : -(wrap h d) ≤ (h : Int) := by omega
+    have h3 : 0 ≤ -(wrap h d) := by omega
+    have := Int.mul_le_mul h1 h1 h3 (by omega)
+    rwa [Int.neg_mul_neg] at this
+
+open Angle in
+/-- The truncating-remainder formula `fmod(x + π, 2π) - π` (C's `fmod` keeps the sign of the
+dividend) is the canonical representative exactly when `x + π ≥ 0` or `x + π` is a whole number
+of turns; everywhere else — every difference below `-π` — it is one full turn too low, outside
+`[-π, π)`. -/
+theorem fmod_wrap_characterised (h : Nat) (x : Int) :
+    fmodWrap h x = wrap h x - (if 0 ≤ x + h ∨ 2 * (h : Int) ∣ x + h then 0 else 2 * (h : Int)) := by
+  unfold fmodWrap wrap
+  rw [Int.tmod_eq_emod]
+  split <;> omega
+
+open Angle in
+/-- A code that wraps with the truncating remainder is right in one argument order and wrong in
+the other, across the seam: jet at `-15π/16`, electron at `+15π/16` (`π/8` apart). -/
+theorem fmod_wrap_counterexample :
+    dr2 16 0 (-15) 0 15 = 4 ∧ dr2With (fmodWrap 16) 0 15 0 (-15) = 4 ∧ dr2With (fmodWrap 16) 0 (-15) 0 15 = 900 := by
+  decide
+
+/-- non-vacuity of the grid statements: the seam itself -/
+example : Angle.wrap 16 16 = -16 ∧ Angle.wrap 16 (-16) = -16 ∧ Angle.phiMpiPi 16 48 = -16 ∧ Angle.dr2 16 3 16 3 (-16) = 0 := by decide
 
 end FaxVerif.C11
